@@ -18,7 +18,7 @@ fn main() {
     }
     mutringbuf::verif::set_hook(Some(exec::count_hook));
     // the crate panics on purpose in a few places (rhs = 0); keep stderr quiet
-    std::panic::set_hook(Box::new(|_| {}));
+    if std::env::var("MRB_PANIC_LOUD").is_err() { std::panic::set_hook(Box::new(|_| {})); }
     let prof_name = arg(&args, "--profile").unwrap_or("fifo".into());
     let seed: u64 = arg(&args, "--seed").and_then(|s| s.parse().ok()).unwrap_or(1);
     let cases: usize = arg(&args, "--cases").and_then(|s| s.parse().ok()).unwrap_or(200);
@@ -27,6 +27,8 @@ fn main() {
     let log_path = arg(&args, "--log");
     let max_fail: usize = arg(&args, "--max-fail").and_then(|s| s.parse().ok()).unwrap_or(3);
     let uni_arg = arg(&args, "--uni");
+    // when a failing history breaks several properties, minimise towards (and report) the failure carrying this tag
+    let prefer_tag: Option<&'static str> = arg(&args, "--prefer-tag").map(|t| &*Box::leak(t.into_boxed_str()));
     let t0 = Instant::now();
     let mut log = log_path.as_ref().map(|p| std::fs::File::create(p).expect("log file"));
 
@@ -42,9 +44,10 @@ fn main() {
 
     let mut report = |spec: &CaseSpec, r: &mrb_harness::runner::CaseResult, origin: &str, failures_json: &mut Vec<String>, driver_path: &Option<String>| {
         // shrink on the first failure (oracle failures first: they are property violations of the implementation)
-        let f = r.failures.iter().find(|f| f.kind == "oracle").unwrap_or(&r.failures[0]);
+        let f = r.failures.iter().find(|f| f.kind == "oracle" && prefer_tag.map(|t| f.tags.contains(&t)).unwrap_or(false))
+            .or_else(|| r.failures.iter().find(|f| f.kind == "oracle")).unwrap_or(&r.failures[0]);
         let kind = f.kind;
-        let tag = f.tags.first().copied();
+        let tag = match prefer_tag { Some(t) if f.tags.contains(&t) => Some(t), _ => f.tags.first().copied() };
         let ops = shrink(spec, r.executed.clone(), kind, tag, driver_path.as_deref());
         let mut small = spec.clone();
         small.ops = ops;
@@ -81,6 +84,48 @@ fn main() {
                 if failures_json.len() < max_fail { report(&spec, &r, &rp, &mut failures_json, &driver_path); }
             }
         }
+    } else if let Some(depth) = arg(&args, "--exhaustive").and_then(|s| s.parse::<usize>().ok()) {
+        // small-scope exhaustive enumeration: every sequence of `depth` operations over a fixed alphabet, for every
+        // buffer length 1..=3, two- and three-stage, local and concurrent heap buffers. `--part k/n` takes the sequences
+        // whose number is k modulo n (so that several processes share the work).
+        use mrb_harness::ops::{Op, Role};
+        let (pk, pn) = arg(&args, "--part").and_then(|s| { let (a, b) = s.split_once('/')?; Some((a.parse::<usize>().ok()?, b.parse::<usize>().ok()?)) }).unwrap_or((0, 1));
+        let mut driver = driver_path.as_ref().map(|p| Driver::spawn(p).expect("cannot start the Lean driver"));
+        let mut seqno = 0usize;
+        for len in 1usize..=3 {
+            for has_w in [false, true] {
+                let mut alpha: Vec<Op> = vec![Op::Push(0), Op::PushS(vec![0, 0]), Op::Avail(Role::P), Op::Pop, Op::CopyS(2), Op::PeekS(2), Op::Avail(Role::C), Op::Reset(Role::C), Op::Adv(Role::C, 1, vec![])];
+                if has_w { alpha.extend([Op::Adv(Role::W, 1, vec![]), Op::Se(Role::W, 2), Op::Gw(Role::W), Op::Reset(Role::W), Op::Poke(Role::W, 0, 0)]); }
+                let n = alpha.len();
+                let total_seqs = n.pow(depth as u32);
+                for code in 0..total_seqs {
+                    seqno += 1;
+                    if seqno % pn != pk { continue; }
+                    let mut c = code;
+                    let mut ops: Vec<Op> = vec![];
+                    for step in 0..depth {
+                        let v = 10 * (step as u64 + 1);
+                        let op = match &alpha[c % n] { Op::Push(_) => Op::Push(v), Op::PushS(_) => Op::PushS(vec![v + 1, v + 2]), Op::Poke(r, k, _) => Op::Poke(*r, *k, v + 5), o => o.clone() };
+                        ops.push(op);
+                        c /= n;
+                    }
+                    let spec = CaseSpec { conc: code % 2 == 0, heap: true, has_w, len, uni: Universe::U64, zeroed: false, ops: ops.clone() };
+                    let r = run_case(&spec, Source::Replay { ops, at: 0 }, driver.as_mut(), log.as_mut(), false);
+                    ncases += 1;
+                    *lens.entry(len).or_insert(0) += 1;
+                    *variants.entry(format!("{}Heap{}", if spec.conc { "Conc" } else { "Local" }, if has_w { "3" } else { "2" })).or_insert(0) += 1;
+                    for (k, v) in &r.stats.ops { *total.ops.entry(k).or_insert(0) += v; }
+                    total.steps += r.stats.steps; total.refused += r.stats.refused; total.granted += r.stats.granted; total.wraps += r.stats.wraps;
+                    { let mut e = spec.clone(); e.ops = r.executed.clone(); let t = e.text(); if distinct.insert(t.clone()) && samples.len() < 2 && r.stats.wraps > 0 { samples.push(t); } }
+                    if !r.failures.is_empty() {
+                        nfail_cases += 1;
+                        for f in &r.failures { *fail_kinds.entry(f.kind.to_string()).or_insert(0) += 1; }
+                        if failures_json.len() < max_fail { report(&spec, &r, &format!("exhaustive depth {depth}"), &mut failures_json, &driver_path); }
+                        if let Some(p) = &driver_path { driver = Some(Driver::spawn(p).expect("driver")); }
+                    }
+                }
+            }
+        }
     } else {
         let pr = profile(&prof_name);
         let mut rng = Rng::new(seed);
@@ -90,16 +135,16 @@ fn main() {
             let ps = 4096usize; // the page size (elements must come in multiples of it under vmem)
             let len = if cfg!(feature = "vmem") { *rng.pick(&[ps, ps, 2 * ps]) } else if heap { *rng.pick(&[1usize, 2, 2, 3, 3, 4, 4, 5, 6, 7, 8, 9, 12, 16, 33]) } else { *rng.pick(&STACK_LENS) };
             let uni = match uni_arg.as_deref() {
-                Some("tok") => Universe::Tok, Some("tok12") => Universe::Tok12, Some("u64") => Universe::U64,
-                _ => if pr.owned { if rng.chance(1, 2) { Universe::Tok } else { Universe::Tok12 } } else { Universe::U64 },
+                Some("tok") => Universe::Tok, Some("tok12") => Universe::Tok12, Some("u64") => Universe::U64, Some("c12") => Universe::C12,
+                _ => if pr.owned { if rng.chance(1, 2) { Universe::Tok } else { Universe::Tok12 } } else if rng.chance(1, 4) { Universe::C12 } else { Universe::U64 },
             };
-            let zeroed = if cfg!(feature = "vmem") { true } else if uni == Universe::U64 { rng.chance(1, 4) } else { rng.chance(1, 2) };
+            let zeroed = if cfg!(feature = "vmem") { true } else if !uni.owned() { rng.chance(1, 4) } else { rng.chance(1, 2) };
             let mut spec = CaseSpec { conc: rng.chance(1, 2), heap, has_w: rng.chance(1, 2), len, uni, zeroed, ops: vec![] };
             let nops = rng.range(pr.max_ops / 3, pr.max_ops);
             if cfg!(feature = "vmem") {
                 // position all iterators a few slots before the physical end, so that the history plays around the seam
                 let k = len - rng.range(1, 6);
-                if spec.uni == Universe::U64 { spec.ops.push(mrb_harness::ops::Op::PushS((0..k as u64).map(|i| 5000 + i).collect())); }
+                if !spec.uni.owned() { spec.ops.push(mrb_harness::ops::Op::PushS((0..k as u64).map(|i| 5000 + i).collect())); }
                 else { for _ in 0..k { spec.ops.push(mrb_harness::ops::Op::PushI(0)); } }
                 if spec.has_w { spec.ops.push(mrb_harness::ops::Op::Avail(mrb_harness::ops::Role::W)); spec.ops.push(mrb_harness::ops::Op::Adv(mrb_harness::ops::Role::W, k, vec![])); }
                 spec.ops.push(mrb_harness::ops::Op::Avail(mrb_harness::ops::Role::C)); spec.ops.push(mrb_harness::ops::Op::Adv(mrb_harness::ops::Role::C, k, vec![]));
